@@ -1,5 +1,5 @@
 (* C14 — the fast selection-choice encoder is sound and covers the design space. *)
-From DSG Require Import Base Dsg Sel SelP DesVar Problem ProblemP Neighborhood NeighborhoodP.
+From DSG Require Import Base Dsg Sel SelP DesVar Problem ProblemP Neighborhood NeighborhoodP Greedy GreedyP.
 
 (* soundness: whatever passes decode_witness is an architecture the graph semantics admit *)
 Theorem C14_sound : forall g E k x x' act inst dvv s,
@@ -51,3 +51,46 @@ Print Assumptions C14_search_failure_means_empty.
 
 Example C14_ex_neighborhood : neighborhood [(3%nat, 1%Z, false); (2%nat, 0%Z, true)] = [[1;0];[2;0];[0;0]]%Z.
 Proof. vm_compute. reflexivity. Qed.
+
+(* ---- the decode of the fast encoder as a function of the graph (Greedy.fast_decode; compared "=" with the implementation
+   on every generated graph without choice constraints outside the known-finding classes) ---- *)
+
+(* soundness: whatever it returns is the instance of an admissible architecture of the graph semantics (Adm), reached from a
+   vector of the neighbourhood of the request whose fixed entries are the requested ones; the corrected vector lists, per
+   choice, the index taken from that vector, or -1 when the choice was not met or was resolved automatically *)
+Theorem C14_fast_decode_sound : forall chk g vars x fixed imp inst,
+  requested_ok (nvars_of vars x fixed) ->
+  fast_decode chk g vars x fixed = Some (Some (imp, inst)) ->
+  exists y s taken,
+    in_space (nvars_of vars x fixed) y /\ settled g vars s /\ (vars_wf g vars -> Adm g s) /\ inst_nodes g s = Some inst /\
+    imp = map (fun v => zlookup taken (fst v)) vars /\
+    (forall c i, In (c, i) taken -> i = req_of vars y c) /\
+    (chk = true -> respects_fixed g vars y fixed taken inst = true).
+Proof. exact fast_decode_sound. Qed.
+Print Assumptions C14_fast_decode_sound.
+
+(* a vector that is already valid is returned unchanged *)
+Theorem C14_fast_decode_identity : forall chk g vars x fixed r,
+  length x = length vars -> length fixed = length vars ->
+  try_vector chk g vars fixed x = Some (Some r) ->
+  fast_decode chk g vars x fixed = Some (Some r).
+Proof. exact fast_decode_identity. Qed.
+Print Assumptions C14_fast_decode_identity.
+
+(* a greedy application that succeeds is an admissible architecture *)
+Theorem C14_greedy_application_admissible : forall g vars x fuel s taken,
+  vars_wf g vars -> greedy g vars x fuel [] [] = Some (TOk s taken) -> Adm g s.
+Proof. exact greedy_adm. Qed.
+Print Assumptions C14_greedy_application_admissible.
+
+Example C14_ex_fast_decode :
+  vars_wf g_f20 vars_f20 /\
+  fast_decode true g_f20 vars_f20 [1; 0]%Z [false; false] = Some (Some ([1; -1]%Z, [0; 1; 4; 3; 6]%N)).
+Proof.
+  split; [|vm_compute; reflexivity]. split.
+  - intros v [<-|[<-|[]]]; split; try reflexivity; intros o Ho; vm_compute; vm_compute in Ho; tauto.
+  - intros c Hc. unfold is_sel, kind_of in Hc. vm_compute. 
+    destruct (N.eq_dec c 10) as [->|]; [left; reflexivity|]. destruct (N.eq_dec c 11) as [->|]; [right; left; reflexivity|].
+    exfalso. revert Hc. unfold g_f20. cbn [nodes find fst snd]. 
+    repeat (match goal with |- context [N.eqb ?a c] => destruct (N.eqb_spec a c); [subst; try congruence|] end); cbn; congruence.
+Qed.
